@@ -101,8 +101,8 @@ _public_ int m_mod_set_batch_size(m_mod_t *mod, size_t len) {
 
 _public_ int m_mod_set_batch_timeout(m_mod_t *mod, uint64_t timeout_ns) {
     M_MOD_ASSERT(mod);
-
-    // src_deregister and src_register already consume a token
+    /* Charged here, before anything is touched: a refused call must not have any effect */
+    M_MOD_CONSUME_TOKEN(mod);
 
     /* If it was already set, remove old timer */
     if (mod->batch.timer.ns != 0) {
@@ -120,7 +120,15 @@ _public_ int m_mod_set_batch_timeout(m_mod_t *mod, uint64_t timeout_ns) {
             // Set a maximum value for batching so that only timed batching will be effective
             mod->batch.len = SIZE_MAX;
         }
-        return m_mod_src_register_tmr(mod, &mod->batch.timer, M_SRC_INTERNAL | M_SRC_PRIO_HIGH, &mod->batch);
+        const int ret = m_mod_src_register_tmr(mod, &mod->batch.timer, M_SRC_INTERNAL | M_SRC_PRIO_HIGH, &mod->batch);
+        if (ret != 0) {
+            /* No timer, no timed batching: do not hold events back for a timeout that will never come */
+            mod->batch.timer.ns = 0;
+            if (mod->batch.len == SIZE_MAX) {
+                mod->batch.len = 0;
+            }
+        }
+        return ret;
     }
     return 0;
 }
